@@ -159,3 +159,80 @@ Record authz_case := {
 
 Definition authz_ok rx (c : authz_case) : bool :=
   list_eqb aobs_eqb (atrace_full rx (az_token c) (az_ops c) (fresh (az_limits c))) (az_obs c).
+
+(* ---------- token histories (C07, C08) ---------- *)
+From BV Require Import DTerm Symbols Wire Token History.
+
+Definition token_eqb (a b : token) : bool :=
+  dblock_seqb (tk_authority a) (tk_authority b) && list_eqb dblock_seqb (tk_blocks a) (tk_blocks b) &&
+  list_eqb bytes_eqb (tk_symbols a) (tk_symbols b) && container_eqb (tk_container a) (tk_container b).
+
+Definition hout_eqb (a b : hout) : bool :=
+  match a, b with
+  | HDone, HDone | HPanicked, HPanicked | HBad, HBad => true
+  | HFail e, HFail f => err_eqb e f
+  | HIndex i, HIndex j => option_eqb Nat.eqb i j
+  | _, _ => false
+  end.
+
+Record hist_case := {
+  hc_seed : bytes; hc_ops : list hop; hc_outs : list hout;
+  hc_tokens : list token; hc_blocks : list dblock; hc_bytes : list bytes }.
+
+Definition hist_ok pubt signt (c : hist_case) : bool :=
+  let '(s, outs) := hrun (opub pubt) (osign signt) (hc_seed c) hinit (hc_ops c) in
+  list_eqb hout_eqb outs (hc_outs c) &&
+  list_eqb token_eqb (hs_tokens s) (hc_tokens c) &&
+  list_eqb dblock_seqb (hs_blocks s) (hc_blocks c) &&
+  list_eqb bytes_eqb (map tk_serialize (hs_tokens s)) (hc_bytes c).
+
+(* which part disagrees, for diagnosis *)
+Definition hist_diag pubt signt (c : hist_case) : list bool :=
+  let '(s, outs) := hrun (opub pubt) (osign signt) (hc_seed c) hinit (hc_ops c) in
+  [list_eqb hout_eqb outs (hc_outs c);
+   list_eqb token_eqb (hs_tokens s) (hc_tokens c);
+   list_eqb dblock_seqb (hs_blocks s) (hc_blocks c);
+   list_eqb bytes_eqb (map tk_serialize (hs_tokens s)) (hc_bytes c)].
+
+(* ---------- the whole pipeline on untrusted bytes (C10) ---------- *)
+Inductive pstage := POk | PErr (e : err) | PSkip.
+Definition pstage_eqb (a b : pstage) : bool :=
+  match a, b with
+  | POk, POk | PSkip, PSkip => true
+  | PErr e, PErr f => err_eqb e f
+  | _, _ => false
+  end.
+Definition stage_of {A} (r : res A) : pstage :=
+  match r with Ok _ => POk | Err e => PErr e | Panic _ => PErr EOther end.
+
+Record pipe_case := {
+  pc_bytes : bytes; pc_root : bytes;
+  pc_unmarshal : pstage; pc_verify : pstage;
+  pc_verdict : option verdict; pc_world : list pred; pc_query : option (obs (list pred)) }.
+
+Definition default_limits : limits :=
+  {| max_facts := Generated.default_max_facts; max_iterations := Generated.default_max_iterations |}.
+
+Definition pipe_ok pubt vert (panel : list aop) (c : pipe_case) : bool :=
+  match tk_unmarshal (pc_bytes c) with
+  | Ok t =>
+      pstage_eqb POk (pc_unmarshal c) &&
+      (match tk_verify (opub pubt) (overify vert) (KSingular (pc_root c)) t with
+       | Ok _ =>
+           pstage_eqb POk (pc_verify c) &&
+           (let tr := atrace_full (fun _ _ => None) (resolve_token t) panel
+                        (fresh {| max_facts := 1000; max_iterations := 100 |}) in
+            let vs := filter (fun o => match o with AOVerdict _ _ => true | _ => false end) tr in
+            let qs := filter (fun o => match o with AOQuery _ => true | _ => false end) tr in
+            (match vs, pc_verdict c with
+             | AOVerdict v w :: _, Some v' => verdict_eqb v v' && list_eqb pred_seqb w (pc_world c)
+             | _, _ => false
+             end) &&
+            (match qs, pc_query c with
+             | AOQuery r :: _, Some r' => obs_eqb (list_eqb pred_seqb) r r'
+             | _, _ => false
+             end))
+       | r => pstage_eqb (stage_of r) (pc_verify c)
+       end)
+  | r => pstage_eqb (stage_of r) (pc_unmarshal c)
+  end.
